@@ -140,8 +140,10 @@ Lemma after_waiting_CK fn aw wk : CK (after_waiting fn aw wk).
 Proof. intro w. unfold after_waiting, after_waiting_once, await_current, set_t0'. cgo; apply fresh_CK. Qed.
 Lemma execute_state_CK : CK execute_state.
 Proof. intro w. unfold execute_state. cgo; first [apply emit_CK | apply run_actions_CK | apply after_run_fn_CK | apply after_waiting_CK | apply set_t0_CK]. Qed.
+Lemma do_pause_deferred_CK msg next : CK (do_pause_deferred msg next).
+Proof. intro w. unfold do_pause_deferred. cgo; first [apply transition_CK | apply do_pause_CK; apply do_ctl_CK]. Qed.
 Lemma run_action_CK id next : CK (run_action id next).
-Proof. intro w. unfold run_action, set_act_fut. cgo; first [apply do_pause_CK; apply do_ctl_CK | apply transition_CK]. Qed.
+Proof. intro w. unfold run_action, set_act_fut. cgo; first [apply do_pause_deferred_CK | apply transition_CK]. Qed.
 Lemma run_armed_CK fuel : forall ran, CK (run_armed fuel ran).
 Proof. induction fuel as [|f IH]; intros ran w; cbn [run_armed]; cgo; first [apply run_action_CK | apply IH]. Qed.
 Lemma finish_step_CK x : CK (finish_step x).
@@ -1229,10 +1231,33 @@ Section Fault.
   Lemma legal_to_ok w ns : transitioning w = false -> is_terminated w = false -> legal w (Some ns) -> to_ok w ns.
   Proof. intros T Hl [X|[L1 L2]]; [congruence|]. split; [exact T | split; assumption]. Qed.
 
+  Lemma do_pause_deferred_handled msg next w :
+    OPreH w -> is_terminated w = false -> legal w next ->
+    wp (do_pause_deferred msg next) (fun _ w' => handled w') w.
+  Proof.
+    intros P Hl Hleg. pose proof P as [[G [T _]] H]. unfold do_pause_deferred. do 2 wp_prim.
+    assert (Hold : wp (do_pause (do_ctl reent_fuel) msg next) (fun _ w' => handled w') w).
+    { destruct next as [ns|].
+      + apply do_pause_split. fold (transition (Some ns)). apply transition_H; [exact P | apply legal_to_ok; assumption|].
+        intros w1 [P1 H1] _ _. apply (do_pause_HK (do_ctl reent_fuel)); [apply do_ctl_HK | split; [apply P1 | exact H1]|].
+        intros r w2 [_ H2]. exact H2.
+      + apply (do_pause_HK (do_ctl reent_fuel)); [apply do_ctl_HK | split; assumption|]. intros r w2 [_ H2]. exact H2. }
+    destruct next as [ns|]; [|exact Hold]. destruct (pausing w) as [a'|]; [|exact Hold].
+    assert (Hfin : forall (r : result bool) w2, handled w2 ->
+              wp (modify (fun w => w <| pausing := None |>)) (fun r2 s'' => match r2 with Ok _ => handled s'' | Err _ => handled s'' end) w2).
+    { intros r w2 H2. wp_prim. apply (keepH_handled w2); [reflexivity | repeat split; reflexivity | exact H2]. }
+    do 2 wp_prim. apply transition_H; [exact P | apply legal_to_ok; assumption|].
+    intros w1 [P1 H1] _ _. cbv beta iota. do 2 wp_prim.
+    match goal with |- wp (if ?c then _ else _) _ _ => destruct c end.
+    - apply (do_pause_HK (do_ctl reent_fuel)); [apply do_ctl_HK | split; [apply P1 | exact H1]|].
+      intros r w2 [_ H2]. apply (Hfin r). exact H2.
+    - wp_prim. apply (Hfin (Ok false)). exact H1.
+  Qed.
+
   Lemma action_body_handled kd next w :
     OPreH w -> is_terminated w = false -> legal w next ->
     wp (match kd with
-        | KPause msg => do_pause (do_ctl reent_fuel) msg next
+        | KPause msg => do_pause_deferred msg next
         | KKill msg => finally (match next with
                                 | Some (SExcepted x) => bind (transition next) (fun _ => ret false)
                                 | _ => bind (transition (Some (SKilled (Some msg)))) (fun _ => ret true)
@@ -1241,11 +1266,7 @@ Section Fault.
         end) (fun _ w' => handled w') w.
   Proof.
     intros P Hl Hleg. pose proof P as [[G [T _]] H]. destruct kd as [msg|msg].
-    - destruct next as [ns|].
-      + apply do_pause_split. fold (transition (Some ns)). apply transition_H; [exact P | apply legal_to_ok; assumption|].
-        intros w1 [P1 H1] _ _. apply (do_pause_HK (do_ctl reent_fuel)); [apply do_ctl_HK | split; [apply P1 | exact H1]|].
-        intros r w2 [_ H2]. exact H2.
-      + apply (do_pause_HK (do_ctl reent_fuel)); [apply do_ctl_HK | split; assumption|]. intros r w2 [_ H2]. exact H2.
+    - apply do_pause_deferred_handled; assumption.
     - assert (Hk : wp (finally (bind (transition (Some (SKilled (Some msg)))) (fun _ => ret true)) (modify (fun w => w <| killing := None |>)))
                       (fun _ w' => handled w') w).
       { do 2 wp_prim. apply transition_H; [exact P | |].
